@@ -369,7 +369,7 @@ public:
             if ((oracles & O_STRUCT) != 0) {
                 if (!walk_ok) fail(r, "struct:duplicate_key", "a key is reachable twice");
                 for (auto* n : retired_nodes) {
-                    if (std::find(w.nodes.begin(), w.nodes.end(), n) != w.nodes.end()) {
+                    if (w.node_set.count(n) != 0) {
                         fail(r, "struct:retired_node_reachable", "a node handed to the retire queue is still reachable");
                     }
                 }
